@@ -204,7 +204,8 @@ PROPS = {
         verus=[U("c13_named_iter", ["C13.V.NamedStrategyIter.exact_size", "C13.V.NamedStrategyIter.kth_block"]),
                U("c18_truncate_sums_to_one", ["C18.V.truncate.sums_to_one (the named view of a truncated profile still sums to one)"]),
                U("c18_truncate_block", ["C18.V.truncate.rescale"]),
-               U("c14_normalise", ["C14.V.normalise.weight_over_total (importing the view back yields the profile)"])],
+               U("c14_normalise", ["C14.V.normalise.weight_over_total (importing the view back yields the profile)"]),
+               U("c14_hash_validate", ["C14.V.hash_import.dense_index (the importer assigns dense slots in the order the named view lists them)", "C14.V.hash_import.stores_weight"])],
         kani_functions=["src/lib.rs :: impl Strategies / fn as_named", "src/lib.rs :: impl Iterator for NamedStrategyActionIter / fn next, size_hint"],
         trusted_base=["representation-invariant induction (constructor + preservation + field privacy)"],
         not_decided=["round trip through the hashing importer"],
@@ -233,12 +234,18 @@ PROPS = {
                    "sums to one. Kani (bounded, bit-precise; 2 entries x 1 pair with concrete name patterns, every f64 weight): the scan-based "
                    "import succeeds exactly when all rules hold, an error carries the kind of a violated rule, zero / unspecified / "
                    "overridden-by-zero actions end exactly 0 (last write wins).",
-        level_note="Only the scan-based path (from_named_eq). The hash-based twin strat_into_box and hence 'both paths agree' are NOT "
-                   "decided (nested HashMap: Kani infeasible, Verus rejects the iterator chains). Normalised values beyond the support are "
+        level_note="Kani harnesses: only the scan-based path (from_named_eq). Of the hash-based twin strat_into_box the per-entry validation "
+                   "kernel (both inner loop bodies) and the dense index assignment are under Verus contracts (any size, HashMap/Borrow as assumed "
+                   "contracts); its outer dispatch, the all-singles-seen check and hence 'both paths agree' are NOT decided (nested HashMap: "
+                   "Kani infeasible, Verus rejects the iterator chains). Normalised values beyond the support are "
                    "not compared (float division miters exhaust CBMC). Legal weights above 1e300 excluded (total overflow).",
-        verus=[U("c14_normalise", ["C14.V.normalise.weight_over_total", "C14.V.normalise.uninitialized"]), U("split_by", ["V.SplitsByMut.next.partition"])],
+        verus=[U("c14_normalise", ["C14.V.normalise.weight_over_total", "C14.V.normalise.uninitialized"]), U("split_by", ["V.SplitsByMut.next.partition"]),
+               U("c14_hash_validate", ["C14.V.hash_import.rejects_bad_weight", "C14.V.hash_import.rejects_unknown_action", "C14.V.hash_import.stores_weight",
+                                       "C14.V.hash_import.single_rejects_other_action", "C14.V.hash_import.single_rejects_bad_weight", "C14.V.hash_import.single_marks_seen",
+                                       "C14.V.hash_import.dense_index"])],
         kani_functions=["src/lib.rs :: impl Game / fn strat_into_box_slow"],
-        not_decided=["strat_into_box (hash path) and agreement of the two paths", "exact normalised values"],
+        trusted_base=["assumed contracts on std::borrow::Borrow, HashMap::{get, insert}, Clone of user key types (c14_hash_validate)"],
+        not_decided=["strat_into_box (hash path) beyond its per-entry validation kernel and index assignment: which infoset table an entry is looked up in, the all-singles-seen check, and the agreement of the two paths", "exact normalised values"],
     ),
     "C19": dict(
         level="proof",
